@@ -147,7 +147,8 @@ fn classify_integer_raw(j: &J) -> Class<Int> {
         },
         J::Str(s) => {
             let (neg, body) = match s.strip_prefix('-') { Some(r) => (true, r), None => (false, s.as_str()) };
-            let strict = if let Some(h) = body.strip_prefix("0x") { if h.len() <= 64 { Nat::from_hex(h) } else { None } }
+            // canonical hex has no leading zero digit (0x0 is zero); padded spellings such as 0x0001 are exotic but unambiguous
+            let strict = if let Some(h) = body.strip_prefix("0x") { if h.len() <= 64 && (h == "0" || !h.starts_with('0')) { Nat::from_hex(h) } else { None } }
                 else if body == "0" || (!body.starts_with('0') && !body.is_empty()) { Nat::from_dec(body) } else { None };
             match strict {
                 Some(mag) => { if neg && mag.is_zero() { Class::Unc(Int::pos(mag)) } else { Class::Accept(Int { neg, mag }) } }
